@@ -170,7 +170,7 @@ PROPS = {
         facts=True,
         families=[dict(name="tree", args=["-specs", "1,12"]), dict(name="hist", args=["-specs", "1,12"]),
                   dict(name="pipe", args=["-specs", "1,12", "-n", "10"]), dict(name="fault", args=["-specs", "48"]),
-                  dict(name="remote", args=["-specs", "32,33"])],
+                  dict(name="remote", args=["-specs", "32,33"]), dict(name="race", race=True)],
         level_text="Theorems C02_history / C02_step / C02_commit / C02_initial: for every history of commands of the "
                    "whole-program model from any state with a well-formed cache (in particular the empty one), every "
                    "object is keyed by the hash of its bytes with mode 0444 and no object ever changes or disappears. "
